@@ -71,7 +71,6 @@ Print Assumptions C14_segment_prefix_rejected.
 (* damage confined to a checksum-covered region of a segment is an error, given that the
    checksums involved differ (named hypothesis per region); footer magic: outright *)
 Theorem C14_segment_covered_corruption_rejected : forall (crc : bytes -> N) (deser_ok : bytes -> bool),
-  (forall d, crc d < U32) ->
   (* record region replaced by any bytes rd', or stored data checksum replaced by fck *)
   (forall h pad rd' fck us cs,
      seg_hdr_wf h -> seg_hdr_valid crc h -> sh_flags h = 0 -> lenN pad = 10 ->
@@ -91,9 +90,9 @@ Theorem C14_segment_covered_corruption_rejected : forall (crc : bytes -> N) (des
      fck < U32 -> us < U64 -> cs < U64 -> lenN m = 4 -> m <> SEGMENT_FOOTER_MAGIC ->
      seg_read crc deser_ok (seg_hdr_image h pad ++ rd ++ seg_ftr_image fck us cs m) = Err EMagic).
 Proof.
-  intros crc deser_ok H.
-  exact (conj (seg_data_corruption_rejected crc deser_ok H)
-        (conj (seg_header_corruption_rejected crc deser_ok H) (seg_footer_magic_rejected crc deser_ok H))).
+  intros crc deser_ok.
+  exact (conj (seg_data_corruption_rejected crc deser_ok)
+        (conj (seg_header_corruption_rejected crc deser_ok) (seg_footer_magic_rejected crc deser_ok))).
 Qed.
 Print Assumptions C14_segment_covered_corruption_rejected.
 
@@ -154,7 +153,7 @@ Theorem C14_checkpoint_covered_corruption_rejected : forall (crc : bytes -> N) (
 Proof.
   intros crc deser_ok H.
   exact (conj (chk_data_corruption_rejected crc deser_ok H)
-        (conj (chk_footer_corruption_rejected crc deser_ok H) (chk_header_corruption_rejected crc deser_ok H))).
+        (conj (chk_footer_corruption_rejected crc deser_ok) (chk_header_corruption_rejected crc deser_ok))).
 Qed.
 Print Assumptions C14_checkpoint_covered_corruption_rejected.
 
@@ -173,14 +172,12 @@ Print Assumptions C14_checkpoint_uncovered_bytes_harmless.
 (* ---------------- totality: arbitrary bytes never panic ---------------- *)
 (* open + validate + read_all of a segment; open + validate + load of a checkpoint; and load
    WITHOUT validate (repo commit 54aabd4; before it that path panicked on short images) *)
-Theorem C14_readers_never_panic : forall (crc : bytes -> N) (deser_ok : bytes -> bool),
-  (forall d, crc d < U32) ->
-  forall img,
+Theorem C14_readers_never_panic : forall (crc : bytes -> N) (deser_ok : bytes -> bool) img,
   (seg_read crc deser_ok img <> Panic /\ seg_read crc deser_ok img <> Err EOutOfFuel) /\
   (chk_read crc deser_ok img <> Panic /\ chk_read_unchecked crc deser_ok img <> Panic).
 Proof.
-  intros crc deser_ok H img.
-  exact (conj (seg_read_total crc deser_ok H img) (chk_read_total crc deser_ok H img)).
+  intros crc deser_ok img.
+  exact (conj (seg_read_total crc deser_ok img) (chk_read_total crc deser_ok img)).
 Qed.
 Print Assumptions C14_readers_never_panic.
 
